@@ -1,5 +1,5 @@
 (* Props/C09.v — the InSim version gate accepts version 9 only, and only when enabled. *)
-Require Import Base.Bytes Net.Frame Net.FrameProofs Net.Framed Net.FramedProofs Net.Concrete Gen.NetConsts.
+Require Import Base.Bytes Net.Frame Net.FrameProofs Net.Framed Net.FramedProofs Net.Concrete Gen.NetConsts Net.ConvProofs.
 Local Open Scope N_scope.
 
 (* a decoded packet is rejected iff verification is on, it is a version packet, and its
@@ -29,6 +29,17 @@ Theorem c09_expected_frame_is_gate :
   expected_frame packet parse ver_of is_keepalive version verify pong f
   = deliver packet ver_of is_keepalive version verify pong p.
 Proof. intros. unfold expected_frame. rewrite H. reflexivity. Qed.
+
+(* conversations: the caller's write() calls (handshake() included: it is a write of the ISI) between its
+   read() calls do not change the version gate (in particular the version an ISI written by the caller asks for plays no role): what the reads of a conversation do is
+   the session of that many reads on the same transport — the connection has no state a write touches *)
+Theorem c09_caller_writes_do_not_matter :
+  forall (packet : Type) (parse : bytes -> res packet) (ver_of : packet -> option N)
+         (is_keepalive : packet -> bool) (version : N) (m : mode) (verify : bool) (pong : bytes),
+  forall ops buf tr,
+    map snd (filter (from_read packet) (conv packet parse ver_of is_keepalive version m verify pong ops buf tr))
+    = session packet parse ver_of is_keepalive version m verify pong (reads ops) buf tr.
+Proof. exact conv_reads. Qed.
 
 Example c09_example :
   run_session Uncompressed true [([2;0;0;8], (0, CVer 8)); ([2;0;0;9], (1, CVer 9))]
